@@ -135,8 +135,16 @@ func runE2E(s *Script, rec *Rec) {
 		parsed := int64(0) // absolute position of the parser (for the skipped bytes)
 		fed := []byte{}
 		budget := 6*len(data) + 64
+		// look > 0: an encoder that keeps a lookahead - it stops parsing
+		// while that many bytes are still unparsed, so that Shrink is called
+		// with unparsed data in the buffer
+		look := int64(num(op["look"]))
+		lookNow := int64(0)
 		drain := func() bool {
 			for budget > 0 {
+				if lookNow > 0 && int64(len(fed))-parsed <= lookNow {
+					return true
+				}
 				budget--
 				if rng.pct(pNil) {
 					if !pd.do(map[string]any{"op": "parsenil"}) {
@@ -201,9 +209,11 @@ func runE2E(s *Script, rec *Rec) {
 			fed = append(fed, c[:n]...)
 			rest = rest[n:]
 			if n < len(c) || rng.pct(30) {
+				lookNow = look
 				if !drain() {
 					return
 				}
+				lookNow = 0
 				if !pd.do(map[string]any{"op": "shrink"}) {
 					return
 				}
@@ -259,9 +269,60 @@ func genE2E(seed int64, n int, tier string) []Script {
 		cfg["wsched"] = sched
 		data, class := genInput(r, r.Intn(500))
 		op := map[string]any{"op": "e2e", "data": B2(data), "chunk": pickInt(r, 1, 7, int(num(cfg["BufferSize"])), 1000, 50),
-			"seed": r.Intn(1 << 30), "pntl": pickInt(r, 0, 0, 30, 100), "pnil": pickInt(r, 0, 0, 15), "pflush": pickInt(r, 0, 20, 100)}
+			"seed": r.Intn(1 << 30), "pntl": pickInt(r, 0, 0, 30, 100), "pnil": pickInt(r, 0, 0, 15), "pflush": pickInt(r, 0, 20, 100),
+			"look": 0}
+		if r.Intn(2) == 0 {
+			// a lookahead of one or two blocks: the next Parse after a Shrink
+			// works on data the parser has seen before the Shrink
+			blkSize := int(num(cfg["BlockSize"]))
+			if blkSize <= 0 || blkSize > 200 {
+				blkSize = 16
+			}
+			op["look"] = pickInt(r, 3, blkSize, 2*blkSize+1, 17)
+		}
 		out = append(out, Script{Tid: "e2e-" + itoa(seed) + "-" + itoa(int64(i)), Comp: "e2e", Cfg: cfg,
 			Ops: []map[string]any{op}, Tags: []string{"go", kind, class}})
+	}
+	// lookahead encoders on purpose: one big Write fills the buffer, several
+	// small blocks are parsed from it (more than ShrinkSize bytes), one or
+	// two blocks stay unparsed, Shrink, Write, and the next blocks lie in
+	// data the parser has seen before the Shrink (what a parser computed
+	// for those positions must have moved with them)
+	for i := 0; i < n/10; i++ {
+		kind := []string{"OSAP", "GSAP", "OSAP", "HP", "BUP", "DHP"}[i%6]
+		B := 96 + r.Intn(105)
+		blk := pickInt(r, 8, 12, 16)
+		cfg := map[string]any{"kind": kind, "BufferSize": B, "ShrinkSize": B / 4, "WindowSize": pickInt(r, 32, 64, 100), "BlockSize": blk}
+		switch kind {
+		case "HP":
+			cfg["InputLen"], cfg["HashBits"] = 3, 8
+		case "BUP":
+			cfg["InputLen"], cfg["HashBits"], cfg["BucketSize"] = 3, 6, 2
+		case "DHP":
+			cfg["InputLen1"], cfg["HashBits1"], cfg["InputLen2"], cfg["HashBits2"] = 2, 8, 4, 8
+		default:
+			cfg["MinMatchLen"] = pickInt(r, 2, 3)
+		}
+		cfg["dbuf"] = pickStr(r, "", "2w", "4w")
+		cfg["wsched"] = []any{}
+		// words over a small vocabulary: many different matches
+		words := make([][]byte, 12)
+		for k := range words {
+			wd := make([]byte, 2+r.Intn(6))
+			for x := range wd {
+				wd[x] = byte('a' + r.Intn(6))
+			}
+			words[k] = wd
+		}
+		var data []byte
+		for len(data) < 3*B+r.Intn(B) {
+			data = append(data, words[r.Intn(len(words))]...)
+			data = append(data, ' ')
+		}
+		op := map[string]any{"op": "e2e", "data": B2(data), "chunk": B, "seed": r.Intn(1 << 30), "pntl": 0, "pnil": 0,
+			"pflush": pickInt(r, 0, 20), "look": pickInt(r, blk, 2*blk+1)}
+		out = append(out, Script{Tid: "e2e-look-" + itoa(seed) + "-" + itoa(int64(i)), Comp: "e2e", Cfg: cfg,
+			Ops: []map[string]any{op}, Tags: []string{"go", kind, "lookahead"}})
 	}
 	return out
 }
